@@ -308,6 +308,12 @@ func runCheck(prop, tier, repo string, verbose bool, only string, timeout int) i
 			continue
 		}
 		funcs = append(funcs, k)
+		for _, w := range ct.When {
+			notes["domain restriction of "+ct.Key+" (entry point called by a library; not checked at any call site): "+w] = true
+		}
+		if o := compileCoversDefine(prog, ct, k); o != nil {
+			obls = append(obls, o...)
+		}
 		for _, u := range ct.Unreach {
 			obls = append(obls, unreachableObligation(prog, fi, ct, u))
 		}
